@@ -308,11 +308,16 @@ class _Ufunc:
         self._real = getattr(_np, name)
 
     def __call__(self, *a, out=None, where=True, dtype=None, casting=None, **kw):
-        if kw or where is not True:
+        if kw:
             raise Unencodable(f"ufunc {self.__name__} with {sorted(kw)}")
         r = elementwise(self.__name__, a)
         if dtype is not None and isinstance(r, SymNd):
             r = r.astype(dtype)
+        if where is not True:
+            # numpy computes the result only where the mask holds; the other entries keep what `out` held before
+            if out is None:
+                raise Unencodable(f"ufunc {self.__name__} with where= but without out= (uninitialised entries)")
+            r = FACADE.where(where, r, out)
         if out is not None:
             out[...] = r
             return out
